@@ -263,6 +263,23 @@ func checkC15(p *core.Program, r *core.Report) {
 
 	// ------------------------------------------------------------------ R5
 	c15R5(p, r, evalNode)
+
+	// ------------------------------------------------------------------ R6 computed indexes in the query packages
+	r.Rule("R6", "every computed index or slice bound in the contactql packages is shown non-negative and within the length of the value it indexes on every path, or listed (same analysis as C04/R7)")
+	var qfns []*ssa.Function
+	for _, fn := range p.ModuleFunctions() {
+		rel := core.RelPkg(core.FuncPkgPath(fn))
+		if (rel == "contactql" || rel == "contactql/es") && !p.IsTestFile(fn.Pos()) {
+			qfns = append(qfns, fn)
+		}
+	}
+	r.Count("variable_index_sites", varIndexRule(p, r, qfns, "R6", c15VarIndexAllowed))
+}
+
+// c15VarIndexAllowed: computed indexes in contactql the generic idioms do not prove (confirmed by reading).
+var c15VarIndexAllowed = map[string]string{
+	"(*contactql.visitor).VisitStringLiteral/high#1": "value[1:len(value)-1] on the text of a STRING token, which starts and ends with a quote (len >= 2)",
+	"contactql.Stringify/high#1":                     "s[1:len(s)-1] under HasPrefix(s, \"(\") && HasSuffix(s, \")\"): two different one-character affixes need len(s) >= 2",
 }
 
 // c15Relations checks the algebraic relations between the six comparison operators over every situation.
